@@ -210,7 +210,7 @@ pub const PROFILES: &[Profile] = &[
     },
     Profile {
         name: "C11",
-        weights: &[(Raw, 24), (Convert, 14), (Swap, 6), (Thin, 6), (Union, 6), (Clone, 10), (Inspect, 10), (Move, 4), (Drop, 10), (CreateSized, 10), (CreateSlice, 6), (CreateThin, 4), (CreateStr, 2)],
+        weights: &[(Raw, 24), (Convert, 14), (Swap, 6), (Thin, 6), (Union, 6), (Clone, 10), (Inspect, 10), (Move, 4), (Drop, 10), (CreateSized, 10), (CreateSlice, 6), (CreateThin, 4), (CreateStr, 2), (Cow, 5), (Uniq, 3)],
         threads: &[(1, 100)],
         setup_ops: (5, 32),
         par_ops: (0, 0),
@@ -234,7 +234,7 @@ pub const PROFILES: &[Profile] = &[
     },
     Profile {
         name: "C15",
-        weights: &[(CreateUninit, 22), (Uninit, 30), (Clone, 8), (Convert, 8), (Thin, 3), (Uniq, 10), (Inspect, 6), (Drop, 16), (Mail, 3), (Shared, 2)],
+        weights: &[(CreateUninit, 22), (Uninit, 30), (Clone, 8), (Convert, 8), (Thin, 3), (Uniq, 10), (Inspect, 6), (Drop, 16), (Mail, 3), (Shared, 2), (CreateHuge, 2)],
         threads: &[(1, 70), (2, 20), (3, 10)],
         setup_ops: (5, 32),
         par_ops: (3, 12),
@@ -678,10 +678,14 @@ impl<'a> G<'a> {
                 let unique = self.allocs[sh.alloc].owners == 1;
                 if self.cfg_a && sh.kind == K::ArcP && self.rng.pct(12) {
                     // serde in-place deserialisation: the handle ends up as a sole owner
-                    self.allocs[sh.alloc].owners -= 1;
-                    let a = self.new_alloc(0);
-                    self.set(s, K::ArcP, a);
-                    return op(OpCode::DeInPlace, s, 0, self.rng.below(1000));
+                    // (c >= 1000: malformed input, the place is left alone)
+                    let c = self.rng.below(1400);
+                    if c < 1000 {
+                        self.allocs[sh.alloc].owners -= 1;
+                        let a = self.new_alloc(0);
+                        self.set(s, K::ArcP, a);
+                    }
+                    return op(OpCode::DeInPlace, s, 0, c);
                 }
                 if !unique {
                     self.allocs[sh.alloc].owners -= 1;
@@ -807,13 +811,16 @@ impl<'a> G<'a> {
                 if !self.cfg_a {
                     return None;
                 }
-                let src = self.of_kind(lo, hi, &[K::ArcP]);
+                let src = self.of_kind(lo, hi, &[K::ArcP, K::UniP]);
                 let s = self.pick(&src)?;
                 let sh = self.slots[s].unwrap();
-                self.allocs[sh.alloc].owners -= 1;
-                let a = self.new_alloc(0);
-                self.set(s, K::ArcP, a);
-                op(OpCode::DeInPlace, s, 0, self.rng.below(1000))
+                let c = self.rng.below(1400);
+                if c < 1000 {
+                    self.allocs[sh.alloc].owners -= 1;
+                    let a = self.new_alloc(0);
+                    self.set(s, sh.kind, a);
+                }
+                op(OpCode::DeInPlace, s, 0, c)
             }
             Shared => {
                 // clone / read through one of the handles every thread shares by reference
